@@ -539,11 +539,22 @@ fn parse_number(i: &mut &str) -> WResult<f64> {
 }
 
 fn parse_number_expr(i: &mut &str) -> WResult<f64> {
-    alt((
-        parse_number,
-        ("sqrt(", parse_number_expr, ')').map(|(_, num, _)| num.sqrt()),
-    ))
-    .parse_next(i)
+    // Grammar: number | "sqrt(" expr ")".
+    // Parsed with a loop rather than recursion, so that deeply nested input
+    // cannot overflow the stack.
+    let mut depth = 0usize;
+    let mut num = loop {
+        if let Some(num) = opt(parse_number).parse_next(i)? {
+            break num;
+        }
+        "sqrt(".parse_next(i)?;
+        depth += 1;
+    };
+    for _ in 0..depth {
+        ')'.parse_next(i)?;
+        num = num.sqrt();
+    }
+    Ok(num)
 }
 
 #[cfg(test)]
